@@ -38,6 +38,7 @@ type vfCap struct {
 	frames  []vfFrame
 	stop    chan struct{}
 	done    chan struct{}
+	invert  bool // the socket is bound to sx's own interface (tun): what sx sends is PACKET_OUTGOING there
 }
 
 type vfFrame struct {
@@ -62,6 +63,8 @@ func vfOpenCap(ifname string) (*vfCap, error) {
 	}
 	tv := syscall.Timeval{Usec: 20000}
 	_ = syscall.SetsockoptTimeval(fd, syscall.SOL_SOCKET, syscall.SO_RCVTIMEO, &tv)
+	// capture times are the kernel's receive timestamps: they do not depend on when this process gets to read the frame
+	_ = syscall.SetsockoptInt(fd, syscall.SOL_SOCKET, 35 /* SO_TIMESTAMPNS */, 1)
 	c := &vfCap{fd: fd, ifindex: ifi.Index, t0: time.Now(), stop: make(chan struct{}), done: make(chan struct{})}
 	go c.loop()
 	return c, nil
@@ -70,26 +73,46 @@ func vfOpenCap(ifname string) (*vfCap, error) {
 func (c *vfCap) loop() {
 	defer close(c.done)
 	buf := make([]byte, 65536)
+	oob := make([]byte, 256)
 	for {
 		select {
 		case <-c.stop:
 			return
 		default:
 		}
-		n, from, err := syscall.Recvfrom(c.fd, buf, 0)
+		n, oobn, _, from, err := syscall.Recvmsg(c.fd, buf, oob, 0)
 		if err != nil || n <= 0 {
 			continue
 		}
+		c.mu.Lock()
+		t0 := c.t0
+		c.mu.Unlock()
+		at := time.Since(t0)
+		if msgs, err := syscall.ParseSocketControlMessage(oob[:oobn]); err == nil {
+			for _, m := range msgs {
+				if m.Header.Level == syscall.SOL_SOCKET && m.Header.Type == 35 && len(m.Data) >= 16 { // SCM_TIMESTAMPNS: struct timespec
+					sec := int64(binary.LittleEndian.Uint64(m.Data[0:8]))
+					nsec := int64(binary.LittleEndian.Uint64(m.Data[8:16]))
+					at = time.Unix(sec, nsec).Sub(t0.Round(0)) // wall-clock difference (Round(0) strips the monotonic reading)
+				}
+			}
+		}
 		out := false
-		if ll, ok := from.(*syscall.SockaddrLinklayer); ok && ll.Pkttype == 4 {
+		if ll, ok := from.(*syscall.SockaddrLinklayer); ok && (ll.Pkttype == 4) != c.invert {
 			out = true
 		}
 		b := make([]byte, n)
 		copy(b, buf[:n])
 		c.mu.Lock()
-		c.frames = append(c.frames, vfFrame{T: int(time.Since(c.t0) / time.Microsecond), Out: out, Bytes: b})
+		c.frames = append(c.frames, vfFrame{T: int(at / time.Microsecond), Out: out, Bytes: b})
 		c.mu.Unlock()
 	}
+}
+
+func (c *vfCap) reset(t0 time.Time) {
+	c.mu.Lock()
+	c.frames, c.t0 = nil, t0
+	c.mu.Unlock()
 }
 
 func (c *vfCap) inject(frame []byte) error {
@@ -315,9 +338,15 @@ func TestVfWire(t *testing.T) {
 		isProbe := func(b []byte) bool { return vfIsProbe(b, myMAC) }
 		snapshot := capt.snapshot
 		injectFn := capt.inject
+		var captTun *vfCap
 		if useTun {
+			// what sx sends on the tun device is observed (with kernel timestamps) by a packet socket on the device itself; the tun
+			// descriptor is only drained, and written to for injection
+			captTun, err = vfOpenCap("vft0")
+			must(err)
+			captTun.invert = true
 			isProbe = func(b []byte) bool { return len(b) >= 20 && b[0]>>4 == 4 }
-			snapshot = tun.snapshot
+			snapshot = captTun.snapshot
 			injectFn = tun.inject
 		}
 		cmd := exec.Command(sx, args...)
@@ -364,8 +393,11 @@ func TestVfWire(t *testing.T) {
 			cmd.Env = append(os.Environ(), sc.Env...)
 		}
 		t0 := time.Now()
-		capt.t0 = t0
+		capt.reset(t0)
 		tun.reset(t0)
+		if captTun != nil {
+			captTun.reset(t0)
+		}
 		floodStop := make(chan struct{})
 		floodN := 0
 		var floodWG sync.WaitGroup
@@ -483,7 +515,8 @@ func TestVfWire(t *testing.T) {
 		frames := snapshot()
 		drops := capt.drops()
 		if useTun {
-			drops = 0
+			drops = captTun.drops()
+			captTun.close()
 		}
 		capt.close()
 		for _, ln := range listeners {
